@@ -1,6 +1,7 @@
 \* GF(2^3): every secret (8) x every coefficient tape (8^(k-1)) x both variants x 2 <= k <= n <= 4 with k <= 3;
 \* every sequence of k distinct indexes is combined, every sequence with a duplicate must be refused
-CONSTANTS MaxN = 4
+CONSTANTS FieldM = 3
+MaxN = 4
 MaxK = 3
 FlipVariant = FALSE
 INIT Init
